@@ -14,13 +14,22 @@
         reentersOk the `reenters` fields are what `findRecursionPoints` computes from the bodies,
         gen        the model generator `genProg VERSION FP` succeeds.
 
-  `answer` is the same on an already parsed program: `Driver.lean` can expose it for stored
+    composed-sexp VERSION FP TEALHEX SEXP…
+        TEALHEX  the real TEAL text (hex of utf-8), SEXP… the program recipe
+      → `composed=true|false [WHY]`
+        composed  `Check.validateComposed` answers `true`: the certificate check accepts, the
+                  certificate's graphs are the generator's for the renamed program, the renamed
+                  program is in the fragment — the hypotheses of
+                  `Proofs.C02Compile.compile_correct_validated_prog` (scratch-slot convention only).
+
+  `answer` / `composedAnswer` are the same on already parsed inputs: `Driver.lean` can expose it for stored
   programs as `fragmentr PID VERSION FP` (the stored-program table lives there).
 -/
 import PyTealV.Util
 import PyTealV.Sexp
 import PyTealV.Recipe
 import PyTealV.Models.FragmentR
+import PyTealV.Check.ComposeProg
 namespace PyTealV.Cmd.C02Gen
 open PyTealV PyTealV.Models.FragmentR
 
@@ -87,5 +96,36 @@ def fragmentrSexp : List String → String
     | none, _ => "perr bad version"
     | _, none => "perr bad recipe"
   | _ => "perr usage: fragmentr-sexp VERSION FP SEXP"
+
+def composedAnswer (p : Src.Prog) (P : Avm.Program) (version : Nat) (fp : Bool) : String :=
+  if fp then "composed=false frame-pointer convention" else
+  match Check.validateComposed version p P with
+  | .ok true => "composed=true"
+  | .ok false =>
+    -- which of the checks fails (diagnostics only)
+    (match Check.renamedProg version false p P, Check.validateProgCert version false p P with
+     | .ok p', .ok (c, _) =>
+       let why := if Check.fragmentOnCert p' c then "" else
+         s!" mainOk={showB (mainOk p')} ids={showB (nodupB (p'.subs.map (·.id)))} subs=" ++
+           " ".intercalate (p'.subs.map (fun sd =>
+             s!"[{sd.id}:wt={showB (wtR ⟨Comp.calleesOf p', sd.hasRet⟩ false true (if sd.hasRet then 1 else 0) sd.body)},par={showB (sd.params.all (fun kv => kv.1 == .val && decide (kv.2 < 256)))},pnd={showB (nodupB (sd.params.map (·.2)))},loc={showB (sd.locals.all (fun v => decide (v < 256)))},snd={showB (nodupB (spillSlots sd))},ss={showB (sameSet (spillSlots sd) sd.locals)}]"))
+       s!"composed=false{why} fragment={showB (Check.fragmentOnCert p' c)} main={showB (Check.certMainOk version p' c)} subs={showB (Check.certSubsOk version p' c)} closed={showB (Check.certClosed c)}"
+     | _, _ => "composed=false")
+  | .error e => "composed=false " ++ (e.replace "\n" " ")
+
+def composedSexp : List String → String
+  | ver :: fp :: h :: rest =>
+    match Util.parseNat ver, Util.unhex h, (Sexp.parse (" ".intercalate rest)).bind Recipe.prog? with
+    | some v, some bs, some p =>
+      (match String.fromUTF8? (ByteArray.mk bs.toArray) with
+       | some text =>
+         let r := Avm.parse [] text
+         if r.errors.isEmpty then composedAnswer p r.prog v (fp == "1")
+         else "perr " ++ " | ".intercalate r.errors
+       | none => "perr not utf-8")
+    | none, _, _ => "perr bad version"
+    | _, none, _ => "perr bad hex"
+    | _, _, none => "perr bad recipe"
+  | _ => "perr usage: composed-sexp VERSION FP TEALHEX SEXP"
 
 end PyTealV.Cmd.C02Gen
